@@ -18,4 +18,20 @@ PROPS = {
         ],
         unreached=["Inner::flush_async (send, unpark, future)", "Receiver::run wiring of drain -> handle_waiting_wakers -> park"],
     ),
+    "C02": dict(
+        verus=[("emf_value", {})],
+        technique="Verus function contracts on the extracted real write_observation / write_metric_value / write_metric over a token view of the buffers",
+        level_text="Deductive proof (Verus/z3), for all observation lists of any length with NaN/inf/zero-occurrence entries at any position and any multiplicity, that the metric-value fragment "
+                   "appended to the EMF record is `,\"name\":` followed by one numeral or by aligned, non-empty, properly comma-separated Values/Counts arrays, that a skipped metric leaves no trace "
+                   "(truncate restores the buffer), and that the declaration list gets its comma iff non-empty. Document assembly in finish() is not reached.",
+        level_note="Trusted: token view of PrefixedStringBuf (6 one-line String wrappers), write_float appends one numeral of a finite double (dtoa), json_string emits one JSON string token (serde_json), "
+                   "clamp_to_finite contract (proved separately by Kani when the kani group runs), rewrites R1/R2/R3/R6, termination of the observation loop, Verus + z3.",
+        explanation="metric-value fragment of the EMF formatter against a token grammar",
+        assumptions=[
+            "PrefixedStringBuf methods behave as their token-level specs (units/emf_value.py prelude)",
+            "serde_json string escaping, itoa and dtoa produce valid JSON tokens",
+            "finish() concatenates the verified fragments with fixed literals (not verified: hashbrown/SmallVec iteration is outside both engines)",
+        ],
+        unreached=["EntryWriter::finish (document assembly, newline framing)", "write_all_vectored (see C16)", "json_string.rs (serde_json)"],
+    ),
 }
